@@ -137,8 +137,9 @@ fn run_case<'a>(ctx: &'a Ctx, case: u64, acc: &'a mut Acc) -> CaseFut<'a> {
         }
         if placement >= 2 {
             sc.apply(&Op::Update { peer: updater, row: 0 }).await;
+            // the update reaches only some of the peers: the others keep offering the older version
             for p in 0..n_peers {
-                if p != updater {
+                if p != updater && rng.gen_bool(0.5) {
                     sc.apply(&Op::Pull { dst: p, src: updater, cut: None }).await;
                 }
             }
